@@ -43,6 +43,7 @@ from __future__ import annotations
 import ast
 
 from qstatic.alg import Poly, SQ, SC, P
+import numpy as np
 from qstatic.dom_sym import SymArr, sym_quat, sym_real, arrays_same, first_diff, mk
 from qstatic.interp import Instance, Env
 from qstatic.src import AnalysisError
@@ -85,6 +86,15 @@ def check_real_expand(ctx, it, f_exp, f_con):
         if st != "ok" or not isinstance(R, SymArr):
             _fail(ctx, "C02.D1.expand", f"real_expand {m}x{n}", f_exp, "embedding fails on a quaternion matrix", R)
             continue
+        if m >= 2 and n >= 2:
+            # memory-layout independence: the same matrix handed over as a transposed (Fortran-ordered) view must embed identically
+            AT = SymArr(np.asarray(A, dtype=object).T.copy().T, "quat")          # same entries, column-major storage
+            stL, RL = run_guarded(lambda: it.run(f_exp, [AT]))
+            ctx.ob("C02.D1.layout", f"real_expand {m}x{n}: independent of the memory layout of the argument",
+                   stL == "ok" and isinstance(RL, SymArr) and arrays_same(RL, R),
+                   "the embedding of a column-major (transposed-view) argument differs from that of the same matrix stored row-major "
+                   "(buffer reinterpretation such as ravel(order='K').view(float64) / reshape(order='A'))", where=w,
+                   construct="real_expand: depends on the memory layout of the argument", loc=f_exp.loc())
         ok_shape = is_symarr(R, "real", (4 * m, 4 * n))
         ctx.ob("C02.D1.expand", f"real_expand {m}x{n}: shape (4m,4n) real", ok_shape,
                f"result has shape {R.shape} kind {R.kind}, expected ({4 * m},{4 * n}) real", where=w,
@@ -106,6 +116,7 @@ def check_real_expand(ctx, it, f_exp, f_con):
             if not (isinstance(atom, tuple) and len(atom) == 4 and atom[0] == "a" and atom[1] == r // 4 and atom[2] == c // 4):
                 local, bad = False, ((r, c), R[r, c])
         want = {("a", i, j, p) for i in range(m) for j in range(n) for p in range(4)}
+        want = {k_ for k_ in want if not Poly.atom(k_).is_zero()}      # (symbols specialised to 0 in an alternative scenario cannot occur)
         ctx.ob("C02.D1.expand", f"real_expand {m}x{n}: entries are 0 or +-one component, all components occur",
                lin and seen >= want, "embedding is not real-linear and injective on the components", where=w,
                construct="real_expand: not a signed component table / a component is dropped", loc=f_exp.loc(),
@@ -195,7 +206,8 @@ def check_realp(ctx, it, f_rp):
                 ok, bad = False, bad or (("block row", a), sorted(planes_in_row))
         ctx.ob("C02.D3.realp", f"Realp {m}x{n}: component-blocked layout (block (a,b) = +-one plane)", ok,
                "block (a,b) at rows a*m.., columns b*n.. is not +-one input plane / a plane is missing from a block row",
-               where=w, construct="Realp: not a component-blocked signed table", loc=f_rp.loc(), detail=short(bad))
+               where=w, construct="Realp: not a component-blocked signed table", loc=f_rp.loc(), detail=short(bad),
+               generic_only=True)        # (a zero-specialised plane gives zero blocks; scale and homomorphism clauses still apply there)
         ctx.ob("C02.D3.realp", f"Realp {m}x{n}: Frobenius scale exactly 2", sumsq_real(R).same(ref_fro2(A) * 4),
                "sum of squares of Realp(A) is not 4 * ||A||_F^2", where=w, construct="Realp: Frobenius scale is not 2",
                loc=f_rp.loc())
@@ -478,6 +490,7 @@ def check_adjoint(ctx, it, f_ad):
                 elif sa != 0:
                     count[sa[1]] = count.get(sa[1], 0) + 1
         want = {("a", i, j, p) for i in range(n) for j in range(n) for p in range(4)}
+        want = {k_ for k_ in want if not Poly.atom(k_).is_zero()}
         ok = lin and set(count) == want and all(c == 2 for c in count.values())
         ctx.ob("C02.D5.adjoint", f"chi(A) n={n}: every component occurs exactly twice (+-1)", ok,
                "entries are not +-single components / a component does not occur exactly twice", where=w,
